@@ -105,3 +105,55 @@ func VerifC03_a6_mixed_result() {
 		verifAssert("mixed-result:array-body-length", len(r.Etags) == len(want.Etags))
 	}
 }
+
+// VerifC03_a6_login_cookies: two result attributes in response cookies (the
+// second optional), one in the body.
+func VerifC03_a6_login_cookies() {
+	alnum := func(s string) bool {
+		for i := 0; i < len(s); i++ {
+			c := s[i]
+			if c < '0' || (c > '9' && c < 'a') || c > 'z' {
+				return false
+			}
+		}
+		return s != ""
+	}
+	res := &svc.LoginResult{Session: nondetString("session", 1), User: nondetStringUpTo("user", 1)}
+	verifAssume(alnum(res.Session))
+	if nondetBool("csrf-set") {
+		c := nondetString("csrf", 1)
+		verifAssume(alnum(c))
+		res.Csrf = &c
+	}
+	want := *res
+	c := client.NewClient("http", "example.com", nil, nil, nil, false)
+	p := &svc.LoginPayload{Org: "o", Tenant: "t"}
+	req, err := c.BuildLoginRequest(context.Background(), p)
+	verifAssert("login:request-built", err == nil)
+	if err != nil {
+		return
+	}
+	verifAssert("login:request-encoded", client.EncodeLoginRequest(func(*http.Request) goahttp.Encoder { return stubEncoder{func(b any) error { return nil }} })(req, p) == nil)
+	x := a6ServeBoth(req, nil, nil, res)
+	verifAssert("login:served", x.gotLogin != nil && x.w.nHeaders == 1 && x.w.status == http.StatusOK && len(x.w.encoded) == 1)
+	if len(x.w.encoded) != 1 {
+		return
+	}
+	resp := a6Response(x)
+	seen := map[string]string{}
+	for _, ck := range resp.Cookies() {
+		seen[ck.Name] = ck.Value
+	}
+	verifAssert("login:both-cookies-on-the-wire", seen["SID"] == want.Session && (want.Csrf == nil || seen["XSRF-TOKEN"] == *want.Csrf))
+	out, derr := client.DecodeLoginResponse(func(*http.Response) goahttp.Decoder {
+		return stubDecoder{func(v any) error { return verifJSONCopy(v, x.w.encoded[0]) }}
+	}, false)(resp)
+	verifAssert("login:decoded", derr == nil)
+	r, ok := out.(*svc.LoginResult)
+	verifAssert("login:type", ok && r != nil)
+	if !ok || r == nil {
+		return
+	}
+	verifAssert("login:cookie-attributes", r.Session == want.Session && (r.Csrf == nil) == (want.Csrf == nil) && (r.Csrf == nil || *r.Csrf == *want.Csrf))
+	verifAssert("login:body-attribute", r.User == want.User)
+}
